@@ -59,7 +59,8 @@ pub fn check_pair(c: &Pair) -> Verdict {
     let r1 = q1.as_bigint_and_exponent();
     // "owned and borrowed forms agree exactly"
     for (name, q) in [("BD/&BD", &q2), ("&BD/BD", &q3), ("&BD/&BD", &q4)] {
-        ensure!(v, dec_of(q).eq_val(&dec_of(&q1)), format!("C08/forms-differ:{}", name), "{} = {} but BD/BD = {}", name, dec_of(q).show(), dec_of(&q1).show());
+        // "agree exactly": same digits and scale, not merely the same value
+        ensure!(v, dec_of(q) == dec_of(&q1), format!("C08/forms-differ:{}", name), "{} = {} but BD/BD = {}", name, dec_of(q).show(), dec_of(&q1).show());
     }
     let _ = r1;
     if let Some(info) = check_quotient(&mut v, "BD/BD", &ma, &mb, &q1, p) {
